@@ -317,6 +317,21 @@ def run_extraction(ex: Extraction, report):
                 t.delete(ls, e)
                 n += 1
             rec["rewrites"].append({"rule": "R1 drop statement", "regex": rx, "count": n})
+        elif kind == "name_anonymous_loops":
+            # `for _ in E {` -> `for <prefix><k> in E {`, k = 1, 2, … in textual order (an unnamed counter cannot be mentioned by an invariant)
+            prefix = payload.strip() or "i"
+            n = 0
+            pos = 0
+            while True:
+                mk = mask(t.s)
+                m = re.compile(r"\bfor\s+_\s+in\b").search(mk, pos)
+                if not m:
+                    break
+                n += 1
+                new = "for %s%d in" % (prefix, n)
+                t.replace(m.start(), m.end(), new)
+                pos = m.start() + len(new)
+            rec["rewrites"].append({"rule": "anonymous loop counters named: k-th `for _ in E` -> `for %sk in E`" % prefix, "count": n})
         elif kind == "desugar_let_chains":
             n = _desugar_let_chains(t)
             rec["rewrites"].append({"rule": "let-chain desugaring: `if let P = E && C {B}` -> `if let P = E { if C {B} }` (only without else)", "count": n})
